@@ -305,13 +305,17 @@ def aggAnn (a : Aggr) (src : Option String) (fns : List Fn) : Option Ty :=
       | some t => some (selectReturnType a t)
       | none => (find? typesInputVariables s).map (selectReturnType a)
 
-/-- `_create_aggregate_by_p_id_functions` (user specs only). `rename_arguments` builds an
+/-- `_create_aggregate_by_p_id_functions` (user specs only). A spec is kept if its source column is a rule, a data
+column, or a column that a time conversion derives from a data column. `rename_arguments` builds an
 `inspect.Signature` with the parameters `(source_col, p_id_to_aggregate_by, "p_id")`; two equal
 names are a `ValueError` ("duplicate parameter name"). -/
 def pidFns (rules : List Fn) (dataCols : List String) (specs : List (String × PidSpec)) :
     Except Err (List Fn) := do
+  -- columns that time conversions derive from the data (an input supplied in another time unit); since the commit
+  -- "fix: person-pointer aggregations accept source columns supplied in another time unit"
+  let derived := (TimeConv.create [] dataCols).map (·.name)
   let fs ← specs.filterMapM fun (n, s) =>
-    if hasFn rules s.source || dataCols.contains s.source then
+    if hasFn rules s.source || dataCols.contains s.source || derived.contains s.source then
       if s.source = s.pIdToAggregateBy || s.source = "p_id" || s.pIdToAggregateBy = "p_id" then
         throw Err.valueError
       else
@@ -339,11 +343,15 @@ def groupAggFn (fns : List Fn) (name : String) (s : GroupSpec) : Except Err Fn :
       else .ok { name, args := [src, gid], ann := aggAnn a (some src) fns, kind := .groupAgg a (some src) gid }
     | _, none => .error .keyError
 
-/-- `_create_aggregate_by_group_functions`: `fns` = `{**timeconv, **rules, **pid}` -/
+/-- `_create_aggregate_by_group_functions`: `fns` = `{**timeconv, **rules, **pid}`.
+Automatic group sums are created for the arguments of `fns`, for the targets AND (since the commit
+"fix: automatic group sums are also created for the source columns of aggregation specifications")
+for the `source_col` of every aggregation specification (`"source_col" in spec`, so also for a
+`count` spec that carries one; the built-in specs are ignored by the model, see ASSUMPTIONS). -/
 def groupAggFns (fns : List Fn) (targets dataCols : List String)
     (userSpecs : List (String × GroupSpec)) : Except Err (List Fn) := do
   let sources := fns.map (·.name) ++ dataCols
-  let potential := fns.flatMap (·.args) ++ targets
+  let potential := fns.flatMap (·.args) ++ targets ++ userSpecs.filterMap (fun (_, s) => s.source)
   let automated : List (String × GroupSpec) :=
     (potential.filter fun col =>
       !hasFn fns col && (groupIdOf col).isSome && sources.contains (removeGroupSuffix col)).map fun col =>
